@@ -808,6 +808,10 @@ class AwareASTNode(DataClassSerializeMixin):
             if was_attached:
                 AwareASTNode._nodes[self.id] = self
 
+                # detach_self() above cleared the parent of the children
+                for c, f, i in self.get_child_nodes_with_field():
+                    c._set_parent(self, f, i)
+
             if cur_parent is not None:
                 assert cur_parent_field is not None
                 self._set_parent(cur_parent, cur_parent_field, cur_parent_index)
